@@ -95,10 +95,35 @@ def pathological(rng: random.Random, n_long: int) -> List[Tuple[str, Any, str]]:
         out.append(("rg", ["x'y'" * n], f"rg-juxtaposed-{2 * n}-segments"))
         out.append(("rg", ["{1 " + "a'b'" * n + "} eggs"], f"rg-juxtaposed-unit-{2 * n}-segments"))
     out.append(("md", "    " + 'x"y" {2}' * 300 + " = z\n", "md-juxtaposed-900-segments"))
+    # reference chains in which every definition uses the previous one TWICE (by-value embedding: hashing, comparing and
+    # scaling cost doubles per level): 10 levels are instant, 19 levels (700 characters) take minutes = known finding F23
+    out.append(("rg", [doubling_chain(10)], "rg-doubling-chain-10"))
     out.append(("rg", ["f(" * 30 + "x" + ")" * 30], "rg-depth-30"))
     out.append(("rg", ["(" * 30 + "x" + ")" * 29], "rg-depth-30-unbalanced"))
     out.append(("md", ("> " * 20) + "{" + "1" * 200, "md-nested-quote-brace"))
     return out
+
+
+def doubling_chain(n: int) -> str:
+    return "a0 = f(x)\n" + "".join(f"a{i + 1} = f(1/2 of a{i}, 1/2 of a{i})\n" for i in range(n))
+
+
+def doubling_levels(text: str) -> int:
+    """Number of consecutive statements `name = ...` each mentioning the previously defined name at least twice."""
+    import re
+    prev, levels, best = None, 0, 0
+    for line in text.splitlines():
+        m = re.match(r"\s*([A-Za-z][A-Za-z0-9 ]*?)\s*:?=", line)
+        if not m:
+            prev, levels = None, 0
+            continue
+        if prev is not None and len(re.findall(r"\b" + re.escape(prev) + r"\b", line.split("=", 1)[1])) >= 2:
+            levels += 1
+            best = max(best, levels)
+        else:
+            levels = 0
+        prev = m.group(1)
+    return best
 
 
 def make_prompt_case(kind: str, text: Any, tag: str) -> Case:
@@ -161,4 +186,9 @@ def replay(inp: Any) -> Case:
 
 
 def known_match(finding: Any, case: Case) -> bool:
+    if finding.get("matches") == "doubling_reference_chain":
+        inp = case.input
+        if not (isinstance(inp, dict) and inp.get("kind") == "rg" and isinstance(case.impl, dict)):
+            return False
+        return case.impl.get("outcome") == "timeout" and doubling_levels("\n".join(inp["text"])) >= 17
     return False
